@@ -246,6 +246,10 @@ func withoutECH(value string) []string {
 	return out
 }
 
+// c20Lists are the config lists a case may publish; record values sometimes carry
+// one of them already (in any syntactic form).
+var c20Lists [][]byte
+
 func genSvcValue(t *rapid.T, label string) string {
 	var toks []string
 	if rapid.Bool().Draw(t, label+"_alpn") {
@@ -269,6 +273,9 @@ func genSvcValue(t *rapid.T, label string) string {
 	toks = rapid.Permutation(toks).Draw(t, label+"_perm")
 	if rapid.Bool().Draw(t, label+"_hasech") {
 		v := base64.StdEncoding.EncodeToString(hello.GenBytes(t, label+"_ech", rapid.IntRange(1, 40).Draw(t, label+"_echl")))
+		if len(c20Lists) > 0 && rapid.IntRange(0, 2).Draw(t, label+"_echcur") == 0 {
+			v = base64.StdEncoding.EncodeToString(c20Lists[rapid.IntRange(0, len(c20Lists)-1).Draw(t, label+"_echwhich")])
+		}
 		tok := `ech="` + v + `"`
 		if rapid.IntRange(0, 3).Draw(t, label+"_unq") == 0 {
 			tok = "ech=" + v
@@ -287,8 +294,8 @@ var (
 
 func TestC20(t *testing.T) {
 	rec := ev.Get("C20")
-	rec.Rule("state machine over a fake Cloudflare v4 API (zones lookup, paged dns_records with result_info as the real API reports it - count = items on this page -, PATCH; failures HTTP 403/404, success:false, and 500 in the thorough tier): 1..3 zones with 0..60 HTTPS records whose value is a generated SvcParams string (alpn, no-default-alpn, port, hints, unknown keys, with/without one ech, quoted/unquoted, any position) plus non-HTTPS records; actions publish(targets drawn from existing / missing / duplicate / unknown-zone names, config list fresh or repeated), edit the zone, switch a failure on/off. Model = copy of the store. Oracle after every publish: one result per target in order with the predicted status class; for every record: requested+existing+no failure -> tokens(value) == tokens(old value without ech) + exactly one ech == base64(list), priority/target kept; otherwise byte-for-byte unchanged; PATCH requests == distinct records whose value was not current; no request touches another record. distinct = (zone shape, target-list shape, failure set); non-trivial = at least one existing target")
-	rec.Mandatory("failure_then_recovery_scripted", "record_on_page_ge2", "duplicate_target", "existing_ech_replaced", "value_already_current", "failure_one_zone_only", "unknown_zone", "missing_record", "patch_failure")
+	rec.Rule("state machine over a fake Cloudflare v4 API (zones lookup, paged dns_records with result_info as the real API reports it - count = items on this page -, PATCH; failures HTTP 403/404, success:false, and 500 in the thorough tier): 1..3 zones with 0..60 HTTPS records whose value is a generated SvcParams string (alpn, no-default-alpn, port, hints, unknown keys, with/without one ech - random or already equal to one of the two lists the case publishes -, quoted/unquoted, any position) plus non-HTTPS records; actions publish(targets drawn from existing / missing / duplicate / unknown-zone names, config list fresh or repeated), edit the zone, switch a failure on/off. Model = copy of the store. Oracle after every publish: one result per target in order with the predicted status class; for every record: requested+existing+no failure -> tokens(value) == tokens(old value without ech) + exactly one ech == base64(list), priority/target kept; otherwise byte-for-byte unchanged; PATCH requests == distinct records whose value was not current; no request touches another record. distinct = (zone shape, target-list shape, failure set); non-trivial = at least one existing target")
+	rec.Mandatory("failure_then_recovery_scripted", "record_on_page_ge2", "duplicate_target", "existing_ech_replaced", "value_already_current", "failure_one_zone_only", "unknown_zone", "missing_record", "patch_failure", "current_in_other_form")
 	thorough := false
 	rapid.Check(t, func(t *rapid.T) {
 		cfAPIOnce.Do(func() {
@@ -304,6 +311,8 @@ func TestC20(t *testing.T) {
 		var cl []string
 		// build the store
 		api.zones, api.log, api.fail = nil, nil, map[string]string{}
+		lists := [][]byte{hello.GenBytes(t, "list0", 30), hello.GenBytes(t, "list1", 45)}
+		c20Lists = lists
 		nz := rapid.IntRange(1, 3).Draw(t, "nzones")
 		rid := 0
 		for zi := 0; zi < nz; zi++ {
@@ -328,7 +337,6 @@ func TestC20(t *testing.T) {
 		}
 		cf := publish.NewCloudflarePublisher("tok")
 		cf.SetBaseURLForVerif(api.url, 5*time.Millisecond, 2)
-		lists := [][]byte{hello.GenBytes(t, "list0", 30), hello.GenBytes(t, "list1", 45)}
 		var ops []string
 		zoneIDKnown := map[string]bool{}
 		nops := rapid.IntRange(1, 6).Draw(t, "nops")
@@ -461,6 +469,9 @@ func TestC20(t *testing.T) {
 					if cur == b64 {
 						want[i] = []publish.StatusCode{publish.StatusNoChange}
 						cl = append(cl, "value_already_current")
+						if f := strings.Fields(r.Value); !had && len(f) > 0 && f[len(f)-1] != `ech="`+b64+`"` {
+							cl = append(cl, "current_in_other_form") // unquoted, or not the last parameter
+						}
 						continue
 					}
 					if fail["patch:"+r.ID] != "" {
